@@ -91,8 +91,11 @@ def join(a, b):
 def inside(v, field=None):
     """value of a field / element of v"""
     if field is not None and v[2] is not None and not v[0]:
+        # fields of a freshly constructed object: `field` = roots the field object itself may be (part of); `field!c` = roots only its contents alias
+        # (the constructor stored a fresh container there, e.g. DimArray._axes = _init_axes(...): a new Axes list holding the caller's Axis objects)
         roots = set(r for f, r in v[2] if f == field)
-        return AV(frozenset((r, 1) for r in roots), frozenset(roots))
+        cont = set(r for f, r in v[2] if f == field + '!c')
+        return AV(frozenset((r, 1) for r in roots), frozenset(roots | cont))
     # depth: 0 = the root object itself; a field name = inside the root through that field; 1 = inside, unknown path
     shell = set()
     for r, d in v[0]:
@@ -578,8 +581,9 @@ class Effects(object):
             fs = set()
             for f, r in av[2]:
                 a = self.absval(binds[r], ctx) if r in binds and binds[r] is not None and binds[r][0] != 'SELF' else FRESH
+                sh = set(x for x, dd in a[0])
                 for x in roots_of(a):
-                    fs.add((f, x))
+                    fs.add((f if (x in sh or f.endswith('!c')) else f + '!c', x))
             fields = frozenset(fs)
         return AV(frozenset(shell), frozenset(contents), fields)
 
@@ -606,8 +610,10 @@ class Effects(object):
             for fld, ps in fc.items():
                 for p in ps:
                     if p in binds and binds[p] is not None and binds[p][0] != 'SELF':
-                        for x in roots_of(self.absval(binds[p], ctx)):
-                            fs.add((fld, x))
+                        a = self.absval(binds[p], ctx)
+                        sh = set(x for x, dd in a[0])
+                        for x in roots_of(a):
+                            fs.add((fld if (x in sh or fld.endswith('!c')) else fld + '!c', x))
             v = AV(v[0], v[1], frozenset(fs))
         return v
 
@@ -755,7 +761,7 @@ class Effects(object):
                 fld = kind.split(':', 1)[1]
                 if av[2] is not None and not av[0]:
                     # freshly constructed object with known fields: only what that field aliases
-                    roots = set((r, 1) for f, r in av[2] if f == fld)
+                    roots = set((r, 1) for f, r in av[2] if f in (fld, fld + '!c'))
                 else:
                     roots = set((r, fld if d == 0 else d) for r, d in av[0]) | set((r, 1) for r in av[1] if not any(x == r for x, dd in av[0]))
                 self.record(s, fi, roots, w, deep=True)
@@ -778,7 +784,9 @@ class Effects(object):
                         caps |= set(x for x, dd in v[0]) | set(v[1])
                         if e.kind == 'store_attr':
                             fld = FIELD_ALIASES.get(e.b, e.b)
-                            s.field_caps.setdefault(r, {}).setdefault(fld, set()).update(roots_of(v))
+                            shell_roots = set(x for x, dd in v[0])
+                            s.field_caps.setdefault(r, {}).setdefault(fld, set()).update(shell_roots)
+                            s.field_caps.setdefault(r, {}).setdefault(fld + '!c', set()).update(set(v[1]) - shell_roots)
             return
         if e.kind == 'aug':
             old = e.a
